@@ -4,6 +4,7 @@ use std::sync::Arc;
 use tokio::io::{AsyncWrite, AsyncWriteExt};
 
 use crate::command::types::Command;
+use crate::engine::auth::{AuthManager, BYPASS_USER_ID};
 use crate::engine::schema::SchemaRegistry;
 use crate::engine::shard::manager::ShardManager;
 use crate::shared::response::render::Renderer;
@@ -19,6 +20,7 @@ pub struct ComparisonCommandHandler<'a, W: AsyncWrite + Unpin> {
     command: &'a Command,
     shard_manager: &'a ShardManager,
     registry: Arc<RwLock<SchemaRegistry>>,
+    auth: Option<(&'a Arc<AuthManager>, Option<&'a str>)>,
     writer: &'a mut W,
     renderer: &'a dyn Renderer,
 }
@@ -35,9 +37,20 @@ impl<'a, W: AsyncWrite + Unpin> ComparisonCommandHandler<'a, W> {
             command,
             shard_manager,
             registry,
+            auth: None,
             writer,
             renderer,
         }
+    }
+
+    /// The authenticated caller: every event type a side reads needs read permission.
+    pub fn with_identity(
+        mut self,
+        auth_manager: Option<&'a Arc<AuthManager>>,
+        user_id: Option<&'a str>,
+    ) -> Self {
+        self.auth = auth_manager.map(|am| (am, user_id));
+        self
     }
 
     pub async fn handle(mut self) -> io::Result<()> {
@@ -47,6 +60,32 @@ impl<'a, W: AsyncWrite + Unpin> ComparisonCommandHandler<'a, W> {
                 .write_error(StatusCode::BadRequest, "Invalid Compare command")
                 .await;
         };
+
+        if let Some((auth_mgr, user_id)) = self.auth {
+            let Some(uid) = user_id else {
+                return self
+                    .write_error(StatusCode::Unauthorized, "Authentication required")
+                    .await;
+            };
+            if uid != BYPASS_USER_ID {
+                for q in queries {
+                    let mut wanted = vec![q.event_type.as_str()];
+                    if let Some(seq) = &q.event_sequence {
+                        wanted.extend(seq.links.iter().map(|(_, t)| t.event.as_str()));
+                    }
+                    for t in wanted {
+                        if !auth_mgr.can_read(uid, t).await {
+                            return self
+                                .write_error(
+                                    StatusCode::Forbidden,
+                                    &format!("Read permission denied for event type '{}'", t),
+                                )
+                                .await;
+                        }
+                    }
+                }
+            }
+        }
 
         if queries.len() < 2 {
             warn!(
